@@ -147,6 +147,12 @@ func c11Generate(c *mon.Ctx) {
 		c.Structured(func() any { return &c11Case{Kind: "iso", X: s, Odd: 1 - odd, Class: cl} })
 	}
 
+	// a soak: the same map evaluated more than 2^18 times in one process (2^20 in thorough), every result compared with the
+	// first: behaviour tied to a call counter (a sampled self-check, a periodic re-seed, a wrapping statistic) shows here
+	soakU := hx(gen.Draw(c.SharedRng("soak"), p).X)
+	soakN := c.N(1<<18+1<<10, 1<<20+1<<10)
+	c.Structured(func() any { return &c11Case{Kind: "soak", U: soakU, Odd: uint(soakN), Class: "soak"} })
+
 	cr := c.SharedRng("concurrent")
 
 	for b := 0; b < c.N(8, 400); b++ {
@@ -179,6 +185,41 @@ func c11Run(c *mon.Ctx, csAny any) {
 
 	if cs.Kind == "concurrent" {
 		c11RunConcurrent(c, cs)
+		return
+	}
+
+	if cs.Kind == "soak" {
+		u := mon.BigH(cs.U)
+		want := oracle.Iso(func() oracle.Pt { q, _ := oracle.SSWU(u); return q }())
+		q := secp256k1.SSWU(mon.FE(u))
+
+		c.Count("soak")
+
+		var first mon.RawSnap
+
+		for i := 0; i < int(cs.Odd); i++ {
+			in := q.Copy()
+			out := secp256k1.IsogenySecp256k13iso(in)
+
+			c.Eval(1)
+
+			if i%4096 == 0 || i > int(cs.Odd)-8 {
+				if ok, why := mon.ElemIs(out, want); !ok {
+					c.Fail(fmt.Sprintf("evaluation %d of the isogeny on one and the same input in this process: %s", i, why), "iso-soak-value", nil)
+					return
+				}
+			}
+
+			// the map is deterministic down to the representation it returns: every result must be limb-for-limb the first one
+			if i == 0 {
+				first = mon.Snap(out)
+			} else if sn := mon.Snap(out); sn != first {
+				v, _ := mon.RawValue(out)
+				c.Fail(fmt.Sprintf("evaluation %d of the isogeny on one and the same input in this process gives %s (raw %s), the first gave %s", i, v, sn, want), "iso-soak-value", nil)
+				return
+			}
+		}
+
 		return
 	}
 
